@@ -55,6 +55,9 @@ def run_case(case, frame=None):
     import ampycloud
     if frame is None:
         frame = build_frame(case['rows'])
+        if case.get('index') and case['index'] != 'range':
+            from vlib import strategies as S
+            frame = S.apply_index(frame, case['index'])
     with GlobalPrms(case.get('gprms')):
         chunk = ampycloud.run(frame, prms=copy.deepcopy(case.get('prms') or None))
     return chunk
